@@ -219,4 +219,14 @@ var props = map[string]*propDef{
 			{Name: "ch.VerifC02Insert", Quick: map[string]int{"maxrows": 2}, Thorough: map[string]int{"maxrows": 3}},
 		},
 	},
+	"C09": {
+		ID: "C09", Level: "model_checking", Rule: ruleDefault,
+		Assumptions: append([]string{
+			"Client.Do with OnInput is run under the cooperative scheduler; the harness connection copies bytes at Write time, so zero-copy aliasing of column memory is observed exactly",
+			"the server answers the schema block at once and EndOfStream only after the terminator; when the callback fails it stays silent",
+		}, baseAssumptions...),
+		Harnesses: []harnessDef{
+			{Name: "ch.VerifC09Stream", Quick: map[string]int{"maxrounds": 2}, Thorough: map[string]int{"maxrounds": 3}},
+		},
+	},
 }
